@@ -331,6 +331,7 @@ func (s *indexKVStore) getOrCreateValue(bucketID uint32, key []byte,
 		if err != nil {
 			return 0, false, false, err
 		}
+		verifGate("kvstore.load")
 		if bucket != nil {
 			// don't cache the bucket loaded from an outdated snapshot(flush swaps snapshot and purges cache),
 			// else values persisted by that flush cannot be found until the cache entry expires.
@@ -353,6 +354,7 @@ func (s *indexKVStore) getOrCreateValue(bucketID uint32, key []byte,
 	if createFn == nil {
 		return 0, false, false, nil
 	}
+	verifGate("kvstore.miss")
 	id, isNew, err = s.createValue(bucketID, key, flushes, createFn)
 	if err != nil {
 		return 0, false, false, err
